@@ -115,6 +115,7 @@ pub fn runhist(args: &crate::Args) -> Report {
         states.push(json!({"op_index": i, "op": opname, "ok": ok, "docs": doc_state(w, contents), "ticket_seq": ticket, "wal": wal}));
         ok && !w.failed
     };
+    let (mut edge_k, mut edge_puts, mut edge_probe, mut edge_aim, mut edge_hits): (Option<i64>, u32, Option<(u64, u64, u64)>, Option<(usize, u64)>, Vec<usize>) = (None, 0, None, None, Vec::new());
     if step(&mut w, 0, &json!({"op": "create"}), &mut contents, &mut states) {
         for i in 1..=ops {
             w.rep.eval();
@@ -150,7 +151,35 @@ pub fn runhist(args: &crate::Args) -> Report {
                     _ => { let len = w.rng.usize(40, 300); json!({"op": "put", "token": token, "uri": format!("mv2://docs/Small{n}"), "ts": 1_700_000_000 + n as i64 * 10, "instant": false, "gen": w.rng.next(), "text": text_of(&mut w.rng, len, &token)}) }
                 })
             } else { None };
-            let op = if let Some(v) = bigblob {
+            // "edge" profile: incompressible records with a commit after every second put; the overhead of a log record over its
+            // payload is measured from the handle's own counters, and once the head is past a third of the region a put is sized
+            // so that its record ends 0..47 bytes before the region end (the place where no end-of-log sentinel fits) while it is
+            // still pending. The put after it finds the region full and grows it.
+            let edge: Option<Value> = if profile == "edge" {
+                let st = w.mem.as_ref().map(|m| memvid_core::verif_hooks::handle_state(m)).unwrap_or_default();
+                let (head, pending, size) = (st.first().copied().unwrap_or(0), st.get(2).copied().unwrap_or(0), st.get(6).copied().unwrap_or(0));
+                let remaining = if head == 0 && pending > 0 { 0 } else { size.saturating_sub(head) };
+                let token = w.next_token();
+                let put = |w: &mut World<'_>, len: u64| json!({"op": "put", "token": token, "uri": format!("mv2://docs/Doc{n:04}"), "ts": 1_700_000_000 + n as i64 * 10, "instant": false, "gen": w.rng.next(), "title": format!("Title {n:04}"), "tags": Vec::<String>::new(), "bin_len": len});
+                let landing = edge_k.filter(|k| pending == 0 && head > 0 && remaining * 10 <= size * 7 && remaining as i64 - k >= 347 && remaining as i64 - k <= 60_000);
+                Some(if let Some(k) = landing {
+                    let r = [0i64, 0, 1, 24, 47, w.rng.below(48) as i64][w.rng.below(6) as usize];
+                    edge_puts = if w.rng.chance(1, 2) { 2 } else { 1 }; // next: a commit, or one more put (finds the region full, grows it) and then a commit
+                    edge_aim = Some((i, size));
+                    put(&mut w, (remaining as i64 - k - r) as u64)
+                } else if edge_puts >= 2 && pending > 0 {
+                    edge_puts = 0;
+                    json!({"op": "commit"})
+                } else {
+                    edge_puts += 1;
+                    let len = w.rng.usize(3000, 6000) as u64;
+                    edge_probe = Some((len, pending, size));
+                    put(&mut w, len)
+                })
+            } else { None };
+            let op = if let Some(v) = edge {
+                v
+            } else if let Some(v) = bigblob {
                 v
             } else if let Some(v) = tomb.clone().filter(|v| !v.is_null()) {
                 v
@@ -199,6 +228,18 @@ pub fn runhist(args: &crate::Args) -> Report {
                 json!({"op": "reopen"})
             };
             if !step(&mut w, i, &op, &mut contents, &mut states) { break; }
+            if profile == "edge" {
+                let st = w.mem.as_ref().map(|m| memvid_core::verif_hooks::handle_state(m)).unwrap_or_default();
+                let (head, pending, size) = (st.first().copied().unwrap_or(0), st.get(2).copied().unwrap_or(0), st.get(6).copied().unwrap_or(0));
+                // record overhead = growth of the pending byte count minus the payload length (only when nothing else happened)
+                if let Some((len, before, size_before)) = edge_probe.take() {
+                    if size == size_before && pending > before { edge_k = Some((pending - before) as i64 - len as i64); }
+                }
+                if let Some((at, size_before)) = edge_aim.take() {
+                    let tail = if head == 0 && pending > 0 { 0 } else { size.saturating_sub(head) };
+                    if size == size_before && pending > 0 && tail < 48 { w.rep.count("edge_records_ending_in_last_48_bytes"); w.rep.count(&format!("edge_tail[{tail}]")); edge_hits.push(at); } else { w.rep.count("edge_attempts_missed"); }
+                }
+            }
         }
         if profile == "corpus" || profile == "tiny" || profile == "reuse" || profile == "bigblob" || args.flag("final-commit") {
             let i = states.len();
@@ -211,7 +252,7 @@ pub fn runhist(args: &crate::Args) -> Report {
         }
     }
     if let Some(p) = args.str("states") {
-        let _ = std::fs::write(p, serde_json::to_string(&json!({"seed": seed, "file": name, "states": states, "history": w.log})).unwrap_or_default());
+        let _ = std::fs::write(p, serde_json::to_string(&json!({"seed": seed, "file": name, "states": states, "history": w.log, "edge_ops": edge_hits})).unwrap_or_default());
     }
     // logical digest of the final state (C23) through the live handle
     if let Some(p) = args.str("digest") {
